@@ -27,3 +27,32 @@ Proof. reflexivity. Qed.
 
 Print Assumptions C19_map_size_hint_is_the_model.
 Print Assumptions C19_reservation_request_bounded.
+
+(* the up-front reservation of BOTH visitors, read from the regenerated bodies: the statements that run
+   before any element is read (VecVisitor: `MiniVec::with_capacity(map_size_hint(seq.size_hint()))`;
+   VecInPlaceVisitor: `hint.checked_sub(self.0.len())` -> `self.0.reserve(additional)`), evaluated by the
+   IR semantics in a world that answers size_hint with ANY claimed hint and len with ANY destination
+   length and records every capacity / reservation request: they end normally and no request exceeds
+   1024 elements, whatever the input claims and whatever the destination held *)
+Theorem C19_upfront_reservation_of_the_source_is_at_most_1024 :
+  forall cfg h l, hint_ok h -> 0 <= l < W64 ->
+  fst (run_prefix cfg 2 serde__VecInPlaceVisitor__visit_seq_ast h l) = Norm VUnit /\
+  fst (run_prefix cfg 1 serde__VecVisitor__visit_seq_ast h 0) = Norm VUnit /\
+  Forall (fun a => 0 <= a <= 1024) (r_log (snd (run_prefix cfg 2 serde__VecInPlaceVisitor__visit_seq_ast h l))) /\
+  Forall (fun a => 0 <= a <= 1024) (r_log (snd (run_prefix cfg 1 serde__VecVisitor__visit_seq_ast h 0))).
+Proof. exact upfront_reservation_bounded. Qed.
+(* and exactly which request the in-place visitor makes: min(hint, 1024) - len when that is not negative *)
+Theorem C19_inplace_reservation_is_hint_minus_len :
+  forall cfg h l, hint_ok h -> 0 <= l < W64 ->
+  run_prefix cfg 2 serde__VecInPlaceVisitor__visit_seq_ast h l =
+    (Norm VUnit, {| r_hint := h; r_len := l;
+                    r_log := if 0 <=? map_size_hint h - l then [map_size_hint h - l] else [] |}).
+Proof. exact inplace_reservation. Qed.
+Example C19_inplace_reservation_examples :
+  forall cfg,
+  r_log (snd (run_prefix cfg 2 serde__VecInPlaceVisitor__visit_seq_ast (Some 18446744073709551615) 5000)) = [] /\
+  r_log (snd (run_prefix cfg 2 serde__VecInPlaceVisitor__visit_seq_ast (Some 100000) 24)) = [1000] /\
+  r_log (snd (run_prefix cfg 2 serde__VecInPlaceVisitor__visit_seq_ast None 7)) = [].
+Proof. intros cfg. repeat split; reflexivity. Qed.
+Print Assumptions C19_upfront_reservation_of_the_source_is_at_most_1024.
+Print Assumptions C19_inplace_reservation_is_hint_minus_len.
